@@ -59,9 +59,12 @@ pub open spec fn request_view(r: QueryRequest) -> QueryView {
     }
 }
 pub uninterp spec fn query_answer<T>(q: QuerierWrapper, req: QueryView) -> T;
+pub uninterp spec fn query_ok<T>(q: QuerierWrapper, req: QueryView) -> bool;   // the callee exists, is not failing and answers this type
 impl QuerierWrapper {
     #[verifier::external_body]
     pub fn query<T>(&self, request: &QueryRequest) -> (r: StdResult<T>)
-        ensures r is Ok ==> r->Ok_0 == query_answer::<T>(*self, request_view(*request)),
+        ensures
+            r is Ok <==> query_ok::<T>(*self, request_view(*request)),
+            r is Ok ==> r->Ok_0 == query_answer::<T>(*self, request_view(*request)),
     { unimplemented!() }
 }
